@@ -19,6 +19,7 @@ from .values import (
     JSRegExp,
     JSTypedArray,
     JSArrayBuffer,
+    JSBoundMethod,
     to_boolean,
     to_number,
     to_string,
@@ -837,6 +838,11 @@ class VM:
                 continue
             if isinstance(method, JSFunction):
                 result = self._call_callback(method, [], value)
+                if not isinstance(result, JSObject):
+                    return result
+            elif isinstance(method, JSBoundMethod):
+                # Built-in prototype methods take the receiver explicitly
+                result = method(value)
                 if not isinstance(result, JSObject):
                     return result
             elif callable(method):
